@@ -278,14 +278,14 @@ int main()
         String t = String::fromInt((int)(uint32_t)v);
         int back = t.toInt();
         int back2 = String::toInt((const char*)t);
-        printf("fi32 "); putText(t); printf(" %08lx %08lx", (unsigned long)(uint32_t)back, (unsigned long)(uint32_t)back2);
+        printf("fi32 "); putText(t); printf(" "); putText(String::fromPrintf("%d", (int)(uint32_t)v)); printf(" %08lx %08lx", (unsigned long)(uint32_t)back, (unsigned long)(uint32_t)back2);
       }
       else
       {
         String t = String::fromUInt((uint)v);
         uint back = t.toUInt();
         uint back2 = String::toUInt((const char*)t);
-        printf("fu32 "); putText(t); printf(" %08lx %08lx", (unsigned long)back, (unsigned long)back2);
+        printf("fu32 "); putText(t); printf(" "); putText(String::fromPrintf("%u", (uint)v)); printf(" %08lx %08lx", (unsigned long)back, (unsigned long)back2);
       }
     }
     else if((hxIs(l, "fi64", 1) || hxIs(l, "fu64", 1)) && strlen(l.tok[1]) == 16)
@@ -297,14 +297,14 @@ int main()
         String t = String::fromInt64((int64)v);
         int64 back = t.toInt64();
         int64 back2 = String::toInt64((const char*)t);
-        printf("fi64 "); putText(t); printf(" %016llx %016llx", (unsigned long long)back, (unsigned long long)back2);
+        printf("fi64 "); putText(t); printf(" "); putText(String::fromPrintf("%lld", (int64)v)); printf(" %016llx %016llx", (unsigned long long)back, (unsigned long long)back2);
       }
       else
       {
         String t = String::fromUInt64((uint64)v);
         uint64 back = t.toUInt64();
         uint64 back2 = String::toUInt64((const char*)t);
-        printf("fu64 "); putText(t); printf(" %016llx %016llx", (unsigned long long)back, (unsigned long long)back2);
+        printf("fu64 "); putText(t); printf(" "); putText(String::fromPrintf("%llu", (uint64)v)); printf(" %016llx %016llx", (unsigned long long)back, (unsigned long long)back2);
       }
     }
     else if((hxIs(l, "pi32", 1) || hxIs(l, "pu32", 1) || hxIs(l, "pi64", 1) || hxIs(l, "pu64", 1)) && validHex(l.tok[1]))
@@ -357,7 +357,8 @@ int main()
       double back = t.toDouble();
       uint64_t bb;
       memcpy(&bb, &back, 8);
-      printf("fd "); putText(t); printf(" %016llx %d", (unsigned long long)bb, t.length() < 203 ? 1 : 0);
+      String t2 = String::fromPrintf("%f", x);
+      printf("fd "); putText(t); printf(" "); if(t2 == t) printf("same"); else putText(t2); printf(" %016llx %d", (unsigned long long)bb, t.length() < 203 ? 1 : 0);
     }
     else if(hxIs(l, "lcs", 2) && validHex(l.tok[2]))
     {
